@@ -198,6 +198,27 @@ func (c *Ctx) AnalyzeFrom(fn *ssa.Function, st *ir.State, cacheKey string) *ir.A
 	return an
 }
 
+// AnalyzeDeep: Analyze with a high inlining bound (definitions chained through many helper levels).
+func (c *Ctx) AnalyzeDeep(fn *ssa.Function, st *ir.State, cacheKey string, depth int) *ir.Analysis {
+	k := ir.FuncName(fn) + "|deep|" + cacheKey
+	if a, ok := c.cache[k]; ok {
+		return a
+	}
+	o := *c.Options()
+	o.MaxInline = depth
+	o.SelfNesting = depth
+	an := ir.Analyze(fn, st, &o)
+	c.cache[k] = an
+	if !c.Funcs[k] {
+		c.Funcs[k] = true
+		c.Paths += an.NPaths
+		for _, p := range an.AllPaths() {
+			c.Events += len(p.Steps)
+		}
+	}
+	return an
+}
+
 // AnalyzeLoops: like Analyze, but callees with loops are inlined too (helper extraction of a loop is followed).
 func (c *Ctx) AnalyzeLoops(fn *ssa.Function) *ir.Analysis {
 	return c.analyzeLoopsFrom(fn, ir.NewRootState(fn, nil, nil, nil), "")
